@@ -3,8 +3,7 @@
 id=$1; tier=${2:-quick}; pid=${3:-${id%%-*}}
 cd /repo || exit 2
 test -z "$(git status --porcelain -- fortls)" || { echo "repo not clean"; exit 2; }
-git apply --3way /verif/seeded/$id/patch.diff 2>/dev/null || git apply /verif/seeded/$id/patch.diff || { echo "PATCH-DOES-NOT-APPLY $id"; git checkout -q -- . ; exit 3; }
-git reset -q
+git apply --recount -C1 /verif/seeded/$id/patch.diff 2>/dev/null || { echo "PATCH-DOES-NOT-APPLY $id"; git checkout -q -f HEAD -- . ; exit 3; }
 cd /verif; ./check $pid --tier $tier > /var/tmp/vscratch/seedrun.$id.$pid.log 2>&1; rc=$?
 git -C /repo checkout -q -- .
 echo "$id check=$pid tier=$tier exit=$rc $(grep -c '^VIOLATION' /var/tmp/vscratch/seedrun.$id.$pid.log) violation line(s)"
